@@ -63,7 +63,7 @@ class FGen:
         for _ in range(self.r.randint(0, 3)):
             if self.p(0.35) and d < 2:
                 self.feats.add("nested-spec-field")
-                inner = "{" + self.pick(["w", "p", "w + 1", "a.b", "f(w)"]) + (self.pick(["", "!r", ":>{z}"]) if self.p(0.3) else "") + "}"
+                inner = "{" + self.pick(["w", "p", "w + 1", "a.b", "f(w)"]) + (self.pick(["", "!r", ":>{z}", ":{z}{y:{k}}", ":{z:>{k}}"]) if self.p(0.3) else "") + "}"
                 parts.append(inner)
             else:
                 t = self.pick(SPEC_TEXT)
@@ -94,9 +94,13 @@ class FGen:
             # (CPython 3.12.1 cuts the debug text of '{a!=b=}' at the '!': not something to imitate)
             self.feats.add("debug=")
             s += self.pick(["=", " = ", "= ", " ="])
+            if len(quote) == 3 and self.p(0.25):
+                # the debug text runs up to the next token of the field: line ends after '=' belong to it
+                self.feats.add("newline-after-debug=")
+                s += self.pick(["\n", " \n  ", "\n\n"])
         if self.p(0.25):
             self.feats.add("conversion")
-            s += self.pick(["!r", "!s", "!a"])
+            s += self.pick(["!r", "!s", "!a", "!r ", " !s", "!a\t"] if self.p(0.3) else ["!r", "!s", "!a"])
         if self.p(0.3):
             s += ":" + self.spec(quote, d + 1)
         return s + "}"
